@@ -2,6 +2,9 @@ SPECIFICATION Spec
 CONSTANTS
   MaxMix = 3
   MixKeys = "few"
+  MaxSubs = 2
+  MaxSubMix = 1
+  SubErrLen = 1
   Export = FALSE
 INVARIANT OrderedBases
 INVARIANT FirstAppliedLast
@@ -10,6 +13,9 @@ INVARIANT KeysReachOwner
 INVARIANT InvalidCompositeIsError
 INVARIANT UnknownKeyIsErrorMix
 INVARIANT PlainBuilds
+INVARIANT SubsectionsReachComponent
+INVARIANT SubsFormIndependent
+INVARIANT UnknownInSubsectionIsError
 INVARIANT CoefFits
 CONSTRAINT Emit
 CHECK_DEADLOCK FALSE
